@@ -7,6 +7,7 @@ CONSTANTS
   MaxDamage = 2
   MaxStamp = 4
   ScriptId = "none"
+  GoalId = "none"
 INVARIANT NoOtherViolation
 VIEW View
 CHECK_DEADLOCK FALSE
